@@ -44,7 +44,8 @@ def _class_for(storage, fs):
 
 def reload(tid, kind, persist, n0, n1, n2, *vals):  # noqa: C901, PLR0911, PLR0912
     L.reset()
-    t = T[tid]
+    scoped = tid.endswith("@s")  # all root inputs moved into the scope "s" (names "s.a", "s.b", ...)
+    t = T[tid.split("@")[0]]
     n, v = tmpl.sizes_and_values(n0, n1, n2, vals)
     try:
         with NoTracing():
@@ -53,10 +54,15 @@ def reload(tid, kind, persist, n0, n1, n2, *vals):  # noqa: C901, PLR0911, PLR09
             shims.TOK.clear()
             log = tmpl.Log()
             p = tmpl.make_pipeline(t.funcs, log)
+            if scoped:
+                p.update_scope("s", inputs="*")
+                p.mapspecs_as_strings  # noqa: B018
             folder = L.scratch_dir()
         storage = _storage_for(t, kind)
         inputs = t.inputs(n, v)
         ref, ncalls = tmpl.reference(t.funcs, inputs)
+        if scoped:
+            inputs = {"s." + k: x for k, x in inputs.items()}
         res = p.map(dict(inputs), run_folder=folder, storage=storage, parallel=False, persist_memory=persist)
         if not tmpl.compare_results(t.funcs, res, ref):
             return False
@@ -162,22 +168,25 @@ def obligations(tier):
         "T12": ["mix_file_first"],
         "T13": ["dict"],
         "T16": ["file_array"],
+        "T22": ["file_array", "mix_dict_first", "mix_file_first"],
+        "T2@s": ["file_array"],
+        "T5@s": ["dict"],
     }
     allkinds = ["file_array", "dict", "dict_sub", "mix_file_first", "mix_dict_first", "mix_sub_first"]
-    tids = list(quick) if not thorough else [x for x in T if x not in ("T8p",)]
+    tids = list(quick) if not thorough else [x for x in T if x not in ("T8p",)] + ["T2@s", "T5@s", "T3@s", "T13@s"]
     for tid in tids:
-        t = T[tid]
+        t = T[tid.split("@")[0]]
         kinds = allkinds if thorough else quick[tid]
         for kind in kinds:
             obs.append(
                 Ob(
-                    f"reload_{tid}_{kind}",
+                    f"reload_{tid.replace('@s', 'scoped')}_{kind}",
                     [("persist", "bool")] + MAP_PARAMS,
                     tmpl.size_pre(t, hi),
                     f"H.reload({tid!r}, {kind!r}, persist, {MAP_ARGS})",
                     timeout=400 if not thorough else 1200,
                     flags=("tokpickle",),
-                    bounds=f"{tid}: {t.doc}; storage {kind}; persist_memory symbolic; sizes 1..{hi}; values unbounded; load_outputs (twice, single and "
+                    bounds=f"{tid}: {t.doc}{' (all root inputs in scope s)' if '@' in tid else ''}; storage {kind}; persist_memory symbolic; sizes 1..{hi}; values unbounded; load_outputs (twice, single and "
                     "multi-name), RunInfo.load (inputs, defaults, shapes, masks, mapspecs, internal shapes, storage), init_store",
                     canaries=("tuple_keys_not_restored",) if (tid, kind) == ("T8", "mix_file_first") else (),
                 )
